@@ -158,7 +158,7 @@ def _render_guarded(w, st):
         return [99], None
 
 
-def impl_cases(cases, on_state=None):
+def impl_cases(cases, on_state=None, retried=None):
     """Run every case (all its states through one real Window, starting from a
     Window.reset() scroll state) inside one running event loop
     (BufferControl.create_content starts the history loader task there).
@@ -177,19 +177,32 @@ def impl_cases(cases, on_state=None):
                 if len(cache) > 400:
                     cache.clear()
                 w = cache[key] = Window11(cfg)
-            w.win.reset()
-            prev = (0, 0, 0)
-            out = []
-            for si, st in enumerate(states):
-                res, obs = _render_guarded(w, st)
-                if obs is not None:
-                    obs["prev"] = prev
-                    prev = (obs["vs"], obs["vs2"], obs["hs"])
-                else:
-                    prev = (w.win.vertical_scroll, w.win.vertical_scroll_2, w.win.horizontal_scroll)
-                out.append(res)
-                if on_state is not None:
-                    on_state(ci, si, cfg, st, res, obs)
+            for attempt in (0, 1):
+                w.win.reset()
+                prev = (0, 0, 0)
+                out = []
+                pend = []
+                for si, st in enumerate(states):
+                    res, obs = _render_guarded(w, st)
+                    if obs is not None:
+                        obs["prev"] = prev
+                        prev = (obs["vs"], obs["vs2"], obs["hs"])
+                    else:
+                        prev = (w.win.vertical_scroll, w.win.vertical_scroll_2, w.win.horizontal_scroll)
+                    out.append(res)
+                    pend.append((ci, si, cfg, st, res, obs))
+                # the watchdog is a wall-clock timer: on a loaded machine it can fire on a
+                # 0.3 ms render.  Re-run the whole history once on a fresh window; a real
+                # non-termination fires again and is reported (status 98).
+                if attempt == 0 and any(r == [98] for r in out):
+                    if retried is not None:
+                        retried[0] += 1
+                    w = cache[key] = Window11(cfg)
+                    continue
+                break
+            if on_state is not None:
+                for a in pend:
+                    on_state(*a)
             outs.append(out)
     loop = asyncio.new_event_loop()
     try:
